@@ -12,7 +12,8 @@ Driver for stream `crash` (C02). One op per line, one observation per line.
   gc                               -> one tryRunGC of the model after the last flush: the SeekGC prefixes it calls | -
                                       (state changing: block deletions go to the write cache, pages are dropped)
   gcpages                          -> the header-hash pages that run removed from the backend | -
-  reset <t> <cur> <hdr>            -> ok | err  Blockchain.Reset(t) on the stopped node
+  reset <t> <cur> <hdr>            -> ok | err | heights …  Blockchain.Reset(t) on the stopped node; cur/hdr = the heights
+                                      the reopened real node reports, they must be the model node's
   rbatch sem …                     -> ok | mismatch …   the real batch (semantic abstraction) against the
                                       model's stage batches (adjacent batches may coalesce; the direct
                                       SeekGC may overtake the last cached batch)
@@ -63,13 +64,14 @@ structure St where
 def B : Nat := Generated.Stages.headerBatchCount
 def Sblocks : Nat := Generated.Stages.resetBlocksBatch
 
-def mkHist (tbl : List (Nat × BlkInfo)) (mtb : Nat := 0) : Hist :=
+def mkHist (tbl : List (Nat × BlkInfo)) (mtb : Nat := 0) (rub : Bool := false) : Hist :=
   { ntx := fun h => match tbl.lookup h with | some i => i.ntx | none => 0
     confl := fun h => match tbl.lookup h with | some i => i.pairs | none => []
     eff := fun h => [(h % 8, some h)]
     touched := fun _ => [0]
     hashOf := fun it => it.length
-    mtb := mtb }
+    mtb := mtb
+    rub := rub }
 
 def insertSorted (x : Nat) : List Nat → List Nat
   | [] => [x]
@@ -254,10 +256,12 @@ partial def step (s : St) (ws : List String) : St × String :=
     | some n => gcStep { s with gcPages := [] } n
     | none => (s, "bad-op")
   | ["gcpages"] => (s, ranges s.gcPages)
-  | ["reset", t, _, _] =>
+  | ["reset", t, cur, hdr] =>
     match s.node, t.toNat? with
     | some n, some tt =>
-      let H := mkHist s.tbl
+      -- the heights the reopened real node reports are the model's own, not parameters
+      if cur.toNat? ≠ some n.height ∨ hdr.toNat? ≠ some n.hdrHeight then (s, s!"heights model={n.height}/{n.hdrHeight}") else
+      let H := mkHist s.tbl 0 s.rub   -- a reset below the height of a RemoveUntraceableBlocks node is refused
       match Persist.reset H B Sblocks n tt with
       | .ok (bs, n') =>
         -- the direct SeekGC is the last but one batch
